@@ -159,7 +159,9 @@ func c19Gen(r *Run, rng *gen.Rng, corpus []string) *c19Inv {
 			// names another operating system reserves
 			"aux.tsh", "con.tsh", "nul.tsh", "Com1.setup.tsh", "nul .tsh", "lpt1", "PRN.tsh",
 			// names that look like somebody's temporary, lock, backup or staging files
-			".tsh-draft.tmp", ".tsh-old.tmp", "draft.tmp", ".#main.tsh", "main.tsh~", ".main.tsh.swp", "#main.tsh#", "main.tsh.orig", "main.tsh.lock", "core", "nohup.out", "~$main.tsh", "main.tmp.tsh", "tmp.tsh"})
+			".tsh-draft.tmp", ".tsh-old.tmp", "draft.tmp", ".#main.tsh", "main.tsh~", ".main.tsh.swp", "#main.tsh#", "main.tsh.orig", "main.tsh.lock", "core", "nohup.out", "~$main.tsh", "main.tmp.tsh", "tmp.tsh",
+			// names spelled like switches a command might have (a value is a value wherever it stands)
+			"--help", "-h", "--version", "-v", "--", "-", "-i", "-o", "--out", "-t.tsh", "--in.tsh"})
 		// imports are relative to the main file's directory: keep the directory, change the base name
 		nm = path.Join(path.Dir(main), path.Base(nm))
 		if rng.Chance(33) && path.Dir(main) == "." && len(gw.Closure) == 1 {
@@ -414,7 +416,7 @@ func c19Gen(r *Run, rng *gen.Rng, corpus []string) *c19Inv {
 		case 1:
 			// (spellings a tolerant parser might accept one day — BASH, sh — are left out: the
 			// property does not settle them)
-			args = append(args, "-t", rng.Pick([]string{"powershell", "", "python", "bash,batch"}))
+			args = append(args, "-t", rng.Pick([]string{"powershell", "", "python", "bash,batch", "--help", "-h", "--version", "-v", "help", "-t", "--type", "all", "*"}))
 			inv.Why = "unknown type"
 		case 2, 3, 4:
 			drop := rng.Pick([]string{"-i", "-o", "-t"})
